@@ -55,6 +55,7 @@ class Contract:
     self_cls: str | None = None
     extern_patterns: dict = field(default_factory=dict)
     trace_name: str | None = None
+    assumes: list = field(default_factory=list)  # ids of assumed contracts / semantics assumptions (X.., PS.., E..)
 
 
 _TAG = re.compile(r"\[([A-Z0-9, ]+)\]\s*$")
@@ -76,6 +77,24 @@ def split_label(label: str):
     if not m:
         return label.strip(), []
     return label[: m.start()].strip(), [p.strip() for p in m.group(1).split(",") if p.strip()]
+
+
+def contract_props(c: Contract):
+    """All properties served by a contract: union of the tags of its clauses (+ safety_props)."""
+    out = []
+    labels = list(c.requires) + list(c.ensures)
+    for cl in c.raises.values():
+        labels += list(cl)
+    for lp in c.loops.values():
+        labels += list(lp.inv)
+    for lb in labels:
+        for p in split_label(lb)[1]:
+            if p not in out:
+                out.append(p)
+    for p in c.safety_props:
+        if p not in out:
+            out.append(p)
+    return out
 
 
 REGISTRY: dict[str, Contract] = {}
